@@ -440,3 +440,64 @@ def targets():      # noqa: F811
     # shared with C12: the parameter table uses the names and identifiers consistently -- every cell of a row belongs to the element
     # and the parameter the row is labelled with
     return _targets_before_traversal() + traversal.targets() + [c12.target_parameters_table()]
+
+
+_targets_before_circuit_glue = targets
+
+
+def target_circuit_glue():
+    """`Circuit.generate_element_identifiers`, `Circuit.get_elements`, `Circuit.get_connections`: the circuit answers with what its
+    top-level connection answers (same `running` / `recursive` argument) -- the numbering a caller sees is the connection's, for both
+    modes; the non-recursive element list holds the top-level connection's own elements only, in order; the connection list starts
+    with the top-level connection itself.  Real methods on recording stand-ins."""
+    import z3 as _z3
+    from pyvc import overload as O
+
+    def run(sess):
+        class Element:
+            def __init__(self, n):
+                self.n = n
+
+        class Conn:
+            def __init__(self, tag):
+                self.tag, self.asked = tag, []
+
+            def generate_element_identifiers(self, running):
+                self.asked.append(("ids", running))
+                return {"ids for running": running}
+
+            def get_elements(self, recursive=True):
+                self.asked.append(("elements", recursive))
+                return ["elements", recursive]
+
+            def get_connections(self, recursive=True):
+                self.asked.append(("connections", recursive))
+                return [f"nested of {self.tag}"]
+        e1, e2, inner = Element(1), Element(2), Conn("inner")
+
+        class Top(Conn):
+            def __iter__(self):
+                return iter([e1, inner, e2])
+        ns = {"Element": Element, "Connection": Conn, "isinstance": isinstance}
+        O.load("circuit/circuit", ["Circuit.generate_element_identifiers", "Circuit.get_elements", "Circuit.get_connections"], ns)
+        for running in (False, True):
+            top = Top("top")
+            me = type("C", (), {"_elements": top})()
+            out = ns["generate_element_identifiers"](me, running=running)
+            sess.check("post", [], _z3.BoolVal(out == {"ids for running": running} and top.asked == [("ids", running)]), 0, label=f"Circuit.generate_element_identifiers(running={running}) is the top-level connection's map for the same mode")
+        top = Top("top")
+        me = type("C", (), {"_elements": top})()
+        sess.check("post", [], _z3.BoolVal(ns["get_elements"](me, recursive=True) == ["elements", True] and top.asked == [("elements", True)]), 0, label="Circuit.get_elements(recursive=True) is the top-level connection's recursive list")
+        got = ns["get_elements"](me, recursive=False)
+        sess.check("post", [], _z3.BoolVal(isinstance(got, list) and len(got) == 2 and got[0] is e1 and got[1] is e2), 0, label="Circuit.get_elements(recursive=False) holds the top-level connection's own elements only, in order")
+        top = Top("top")
+        me = type("C", (), {"_elements": top})()
+        got = ns["get_connections"](me, recursive=False)
+        sess.check("post", [], _z3.BoolVal(isinstance(got, list) and len(got) == 1 and got[0] is top), 0, label="Circuit.get_connections(recursive=False) is [the top-level connection]")
+        got = ns["get_connections"](me, recursive=True)
+        sess.check("post", [], _z3.BoolVal(isinstance(got, list) and len(got) >= 1 and got[0] is top), 0, label="Circuit.get_connections(recursive=True) starts with the top-level connection itself")
+    return ("circuit/circuit:Circuit.generate_element_identifiers / get_elements / get_connections", "circuit/circuit", "Circuit.generate_element_identifiers", run)
+
+
+def targets():      # noqa: F811
+    return _targets_before_circuit_glue() + [target_circuit_glue()]
